@@ -16,6 +16,7 @@ MANIFEST = {
     'note': 'Trusted: scipy.interpolate.interp1d, numpy. The interpolation bound for smooth g is 2*h^2*max|g\'\'| with h the largest phase step of the cycle (extrapolation to the first/last bin centre included); the largest ratio observed is reported.',
     'technique': 'direct-recomputation oracle on the real per-cycle routines, seeded random workload',
 }
+LOGGER_ON_ODD_SHARDS = True
 BUDGET_S = {'quick': 60, 'thorough': 360}
 NCASES = {'quick': 12000, 'thorough': 100000}
 RULE = ('seeded random label vectors / monotone multi-cycle phases / phase samples; non-trivial = at least one cycle (or one '
@@ -46,6 +47,8 @@ def check_stat(ctx, case):
     ctx.count('stat_calls:' + fname)
     if K and any(np.any(np.diff(np.where(labels == k)[0]) > 1) for k in range(K)):
         ctx.count('stat_calls_with_split_cycles')
+    if K and any(not np.any(labels == k) for k in range(K)):
+        ctx.count('stat_calls_with_unused_label')
     got = np.asarray(got, dtype=float)
     if out == 'samples':
         ws = np.full(len(labels), np.nan)
@@ -102,6 +105,12 @@ def check_align(ctx, case):
         ctx.violation('align-exception:%s' % type(e).__name__, 'phase_align raised %s: %s' % (type(e).__name__, str(e)[:100]), case)
         return
     ctx.count('align_calls:' + kind)
+    avg, centres_ret = np.array(avg, copy=True), centres
+    centres = np.array(centres, copy=True)
+    try:
+        centres_ret *= 57.29577951308232     # the caller converts the grid it was handed to degrees, in place
+    except ValueError:
+        pass
     wantc = (np.arange(npoints) + .5) * 2 * np.pi / npoints
     if avg.shape != (npoints, len(lens)) or not np.allclose(centres, wantc, rtol=1e-12):
         ctx.violation('align-shape', 'phase_align returned %s / centres %s for %d cycles, npoints %d' % (avg.shape, np.round(centres[:3], 3), len(lens), npoints), case)
@@ -146,6 +155,12 @@ def check_bin(ctx, case):
         ctx.violation('bin-exception:%s' % type(ex).__name__, 'bin_by_phase raised %s: %s' % (type(ex).__name__, str(ex)[:100]), case)
         return
     ctx.count('bin_calls')
+    centres_ret, centres = centres, np.array(centres, copy=True)
+    try:
+        if edges is None:
+            centres_ret += 1000.0               # scribble on the returned grid: later calls must not see it
+    except (ValueError, TypeError):
+        pass
     nb = len(e) - 1
     avg = np.asarray(avg, dtype=float)
     if avg.shape[0] != nb or not np.allclose(centres, (e[:-1] + e[1:]) / 2, rtol=1e-12):
@@ -187,7 +202,14 @@ def gen_case(rng):
                     if labels[i] >= 0 and (labels == labels[i]).sum() > 1:
                         labels[i] = -1
         vals = rng.standard_normal(len(labels)) if rng.random() < .7 else rng.integers(-5, 6, len(labels)).astype(float)
-        return {'kind': 'stat', 'labels': labels, 'values': vals, 'func': gens.pick(rng, sorted(FUNCS)),
+        fname = gens.pick(rng, sorted(FUNCS))
+        if rng.random() < .08 and labels.max() >= 2:
+            # "any labelling": a label below the maximum that no sample carries (a cycle dropped without renumbering);
+            # only with reducing functions that are defined on an empty vector
+            labels = labels.copy()
+            labels[labels == int(rng.integers(0, labels.max()))] = -1
+            fname = gens.pick(rng, ['sum', 'len'])
+        return {'kind': 'stat', 'labels': labels, 'values': vals, 'func': fname,
                 'out': 'samples' if rng.random() < .35 else None}
     if r < .75:
         explicit = bool(rng.random() < .5)
